@@ -1,7 +1,7 @@
 (* C14 - Chunk-size, repeat and time-limit options are honoured (minimize). *)
 From Coq Require Import ZArith NArith List Bool.
 From Lithium Require Import PyBase TcRecord Util Testcase Spec Driver TraceSpec Minimize StratSpec
-  MinimizeProofs.
+  MinimizeProofs Pairs PairsDeadline.
 Import ListNotations.
 Open Scope Z_scope.
 
@@ -78,7 +78,29 @@ Theorem C14_always_head :
     reachable (minimize cfg clk no_post) verdict tc0 file0 st it w -> m_phase st = PHead.
 Proof. exact minimize_phase_head. Qed.
 
+(* minimize-around / minimize-balanced: the deadline is start + limit; once the clock stays
+   beyond it (time does not go back) the strategy proposes nothing more *)
+Theorem C14_pairs_deadline :
+  forall kind cfg clk s best d,
+    p_deadline s = Some d -> (forall i, (p_reads s <= i)%nat -> clk i > d) ->
+    pnext kind cfg clk s best = Done \/ exists e, pnext kind cfg clk s best = Fail e.
+Proof. exact pairs_deadline_stops. Qed.
+
+Theorem C14_pairs_deadline_start :
+  forall cfg clk tc0 l, c_limit cfg = Some l ->
+    p_deadline (pstart cfg clk tc0) = Some (clk O + l) /\ p_reads (pstart cfg clk tc0) = 1%nat.
+Proof. exact pairs_deadline_start. Qed.
+
+(* the deadline never changes during a run *)
+Theorem C14_pairs_deadline_constant :
+  forall kind cfg clk s best t k o,
+    pnext kind cfg clk s best = Propose t k -> p_deadline (k o) = p_deadline s /\ (p_reads s <= p_reads (k o))%nat.
+Proof. exact pairs_deadline_constant. Qed.
+
 Print Assumptions C14_is_power_of_two.
+Print Assumptions C14_pairs_deadline.
+Print Assumptions C14_pairs_deadline_start.
+Print Assumptions C14_pairs_deadline_constant.
 Print Assumptions C14_largest_power_of_two_smaller_than.
 Print Assumptions C14_blocks.
 Print Assumptions C14_repeat.
